@@ -120,6 +120,10 @@ class Subjac(object):
         self.parent_ncols = col_slice.stop - col_slice.start
         if src_inds_list is not None:
             src_indices = idx_list_to_index_array(src_inds_list)
+            if src_indices is not None and src_indices.ndim > 1:
+                # non-flat indices into a multidimensional source come back in the shape of the
+                # input, but the columns of the subjac are positions in the flattened input.
+                src_indices = src_indices.ravel()
         else:
             src_indices = None
         self.src_indices = src_indices
